@@ -1162,6 +1162,14 @@ func main() {
 	maxNums := []uint32{0, 1, 6, 6, 6, 9, 18, 30, 40}
 
 	runPair := func(sx, sy, shape string, mask func(string) bool, emitParse bool) {
+		// a panic inside the implementation (or inside a monitor working on operands the implementation corrupted)
+		// is a finding about this pair, not a reason to stop
+		defer func() {
+			if r := recover(); r != nil {
+				e.violate("operation-panicked", fmt.Sprintf("types/math panicked (or left an operand in a state on which math/big panics): %v", r),
+					map[string]interface{}{"op": "pair:" + shape, "arg0": clip(sx), "arg1": clip(sy)})
+			}
+		}()
 		e.hist["shape:"+shape]++
 		x := e.parse(sx, emitParse)
 		y := e.parse(sy, emitParse && sy != sx)
